@@ -150,6 +150,8 @@ impl Park {
 
         // before a new yield wait the kernel done
         while self.wait_kernel.load(Ordering::Acquire) {
+            #[cfg(may_verif)]
+            crate::verif::label("park.wait_kernel", 0);
             yield_now();
         }
 
@@ -193,6 +195,8 @@ impl Drop for Park {
     fn drop(&mut self) {
         // wait the kernel finish
         while self.wait_kernel.load(Ordering::Acquire) {
+            #[cfg(may_verif)]
+            crate::verif::label("park.drop.wait_kernel", 0);
             yield_now();
         }
 
